@@ -66,7 +66,8 @@ def _inlinable(facts, caller, call, stop, lambdas):
             src_local = (f.file or "").endswith((".cpp", ".cc", ".cxx")) and not f.d.get("virtual") and isinstance(o, dict) and o.get("k") == "ref" and o.get("dk") not in ("local", "param", "field", "enumconst")
             # (c) a method of a helper class nested in the caller's class, called on the caller's own member (m_worker->bindTo(...))
             nested_helper = bool(caller.cls) and bool(f.cls) and strip_tmpl(f.cls).startswith(strip_tmpl(caller.cls) + "::") and not f.d.get("virtual") and \
-                isinstance(o, dict) and o.get("k") == "member" and skip_copies(o.get("base") or {}).get("k") == "this"
+                isinstance(o, dict) and ((o.get("k") == "member" and skip_copies(o.get("base") or {}).get("k") == "this") or
+                                         (o.get("k") == "ref" and o.get("dk") == "local"))       # ... or on a local object of that helper class (a save / restore record)
             # (d) a method of a class declared inside a function (a local helper struct), called on a local object of that class
             local_class = "(" in strip_tmpl(f.cls or "").replace("(anonymous namespace)", "").replace("(anonymous class)", "") and not f.d.get("virtual")
             if named and ("(anonymous namespace)" in f.name or private_peer or src_local or nested_helper or local_class):
